@@ -14,7 +14,7 @@
       nodes on the example. *)
 
 From Coq Require Import List NArith PArith Bool Arith Lia FMapPositive Permutation.
-From OxiVerif Require Import DD.Table DD.TableProofs Mgr.SortOrder Mgr.SortOrderProofs
+From OxiVerif Require Import DD.Table DD.TableProofs DD.Canon Mgr.SortOrder Mgr.SortOrderProofs
   Mgr.LevelSwap Mgr.LevelSwapBase Mgr.LevelSwapProofs.
 Import ListNotations.
 
@@ -190,6 +190,21 @@ Proof.
   unfold levels. rewrite map_length. exact Hab.
 Qed.
 
+(** the reordered diagram is canonical again: two handles are the same edge iff
+    they denote the same function (the theorem of C01 applies to the result) *)
+Theorem set_var_order_model_canonical : forall h1 h2,
+  In h1 (s_handles s) -> In h2 (s_handles s) ->
+  (snd h1 = snd h2 <->
+   forall c, choice_ok s' c -> sem_edge s' (snd h1) c = sem_edge s' (snd h2) c).
+Proof.
+  intros h1 h2 H1 H2.
+  destruct set_var_order_model_correct as [A [B [_ [D _]]]].
+  apply (canon_kary_handles s' A).
+  - rewrite B. split; discriminate.
+  - rewrite D. exact H1.
+  - rewrite D. exact H2.
+Qed.
+
 End Order.
 
 (** ** the hypotheses are satisfiable; the loop does something *)
@@ -241,4 +256,20 @@ Proof.
   split; [vm_compute; reflexivity|]. split; [vm_compute; reflexivity|]. split.
   - repeat constructor; simpl; intuition lia.
   - repeat constructor; vm_compute; lia.
+Qed.
+
+(** the facts above in one statement (Props/C08.v) *)
+Example ex_swap_all :
+  WF ex_swap /\ s_kind ex_swap = KBdd /\ 1 < nlevels ex_swap
+  /\ dep_ids ex_swap 0 = [5; 3]%positive
+  /\ find_node (level_swap ex_swap 0) 2 = None
+  /\ find_node (level_swap ex_swap 0) 3 = Some (mkNode 0 [ex_e (RN 7); ex_e (RN 1)] 0 1)
+  /\ find_node (level_swap ex_swap 0) 7 = Some (mkNode 1 [ex_e (RT 1); ex_e (RN 1)] 1 0)
+  /\ s_v2l (set_var_order_model ex_swap [2; 1; 0]) = [2; 1; 0]
+  /\ NoDup [2; 1; 0] /\ Forall (fun v => v < nlevels ex_swap) [2; 1; 0].
+Proof.
+  split; [exact ex_swap_WF|]. split; [reflexivity|]. split; [vm_compute; lia|].
+  split; [vm_compute; reflexivity|]. split; [vm_compute; reflexivity|].
+  split; [vm_compute; reflexivity|]. split; [vm_compute; reflexivity|].
+  split; [vm_compute; reflexivity|]. exact (proj2 (proj2 ex_order_result)).
 Qed.
